@@ -193,6 +193,9 @@ impl Ev {
 struct Pair {
     main: Emu,
     joy: Emu,
+    /// a third machine built with the joystick switched off in the settings and given one afterwards by an SZX
+    /// snapshot (KEYB chunk naming the Kempston interface): from then on it is a machine with a joystick
+    joy_szx: Emu,
 }
 
 fn new_emu(m128: bool) -> Pair {
@@ -201,13 +204,23 @@ fn new_emu(m128: bool) -> Pair {
     c.kempston = true;
     let main = emu(&c);
     c.mouse = false;
-    Pair { main, joy: emu(&c) }
+    let joy = emu(&c);
+    c.kempston = false;
+    let mut joy_szx = emu(&c);
+    let mut f = b"ZXST".to_vec();
+    f.extend_from_slice(&[1, 4, if m128 { 2 } else { 1 }, 0]);
+    f.extend_from_slice(b"KEYB");
+    f.extend_from_slice(&5u32.to_le_bytes());
+    f.extend_from_slice(&[0, 0, 0, 0, 1]);
+    let _ = joy_szx.load_snapshot(rustzx_core::host::Snapshot::Szx(VAsset::new(f)));
+    Pair { main, joy, joy_szx }
 }
 
 /// What the real code shows after a history: ULA read for the given selectors + device ports.
 struct Obs {
     ula: Vec<(u8, u8)>,
     kemp: u8,
+    kemp_szx: u8,
     mb: u8,
     mx: u8,
     my: u8,
@@ -215,6 +228,7 @@ struct Obs {
 
 fn observe(p: &mut Pair, sels: &[u8]) -> Obs {
     let kemp = p.joy.verif_read_io(0x001F);
+    let kemp_szx = p.joy_szx.verif_read_io(0x001F);
     let e = &mut p.main;
     let ula = sels
         .iter()
@@ -223,6 +237,7 @@ fn observe(p: &mut Pair, sels: &[u8]) -> Obs {
     Obs {
         ula,
         kemp,
+        kemp_szx,
         mb: e.verif_read_io(0xFADF),
         mx: e.verif_read_io(0xFBDF),
         my: e.verif_read_io(0xFFDF),
@@ -269,6 +284,7 @@ fn run_history(
     for (i, ev) in hist.iter().enumerate() {
         ev.apply(&mut e.main);
         ev.apply(&mut e.joy);
+        ev.apply(&mut e.joy_szx);
         lines.push(ev.line());
         let last = i + 1 == hist.len();
         let o = observe(&mut e, if last { sels_final } else { sels_each });
@@ -326,6 +342,7 @@ fn compare(answers: &[String], obs: &Obs, mut rep: Option<&mut Report>) -> Optio
     // kemp M S mb M S mx M S my M S
     let fields = [
         ("kempston port", obs.kemp, 1),
+        ("kempston port of a machine whose joystick was attached by an SZX snapshot", obs.kemp_szx, 1),
         ("mouse buttons port", obs.mb, 4),
         ("mouse x port", obs.mx, 7),
         ("mouse y port", obs.my, 10),
